@@ -8,7 +8,7 @@
    iter_index t it = number of items before position it (= distance from begin).
    All statements hold for every 1 <= maxCapacity <= 255, every capacityStep, blockCount, search strategy. *)
 From Coq Require Import ZArith List.
-From C02 Require Import BTreeModel BTreeParams BTreeBase BTreeSearch BTreeIter BTreeAdd BTreeRemove BTreeCtx BTreeRemove2 BTreeTrack BTreeRemove3 BTreeTop BTreeHist BTreeRemoveTop BTreeHist2.
+From C02 Require Import BTreeModel BTreeParams BTreeBase BTreeSearch BTreeIter BTreeAdd BTreeRemove BTreeCtx BTreeRemove2 BTreeTrack BTreeRemove3 BTreeTop BTreeHist BTreeRemoveTop BTreeHist2 BTreeMerge BTreeFast.
 Import ListNotations.
 Local Open Scope Z_scope.
 
@@ -259,6 +259,79 @@ Theorem C02_merge_generic_refines_partial :
     (contents (fst res), contents (snd res)) = spec_merge multi (contents src) (contents dst).
 Proof. exact merge_generic_refines. Qed.
 Print Assumptions C02_merge_generic_refines_partial.
+
+(* pvMergeToLinear (two cursors; the skip loop over destination items ordered before the source key; Add at the
+   cursor or step over an equivalent destination item for unique keys) refines the SAME stable-merge specification:
+   destination items before equivalent source items, refused duplicates stay in the source. *)
+Theorem C02_merge_linear_refines :
+  forall (maxCap stepRaw blockCount : nat) (multi : bool), (1 <= maxCap <= 255)%nat ->
+  forall src dst : tree, twf maxCap src -> twf maxCap dst -> sorted multi (contents src) -> sorted multi (contents dst) ->
+    let res := merge_linear maxCap stepRaw blockCount multi (S (length (contents src) + length (contents dst)))
+                 src dst (begin_iter src) (begin_iter dst) in
+    twf maxCap (fst res) /\ twf maxCap (snd res) /\ sorted multi (contents (snd res)) /\
+    (contents (fst res), contents (snd res)) = spec_merge multi (contents src) (contents dst).
+Proof. exact merge_linear_refines. Qed.
+Print Assumptions C02_merge_linear_refines.
+
+(* path selection is irrelevant for results: outside the concatenation fast path, MergeTo (empty source, empty
+   destination = swap shortcut, generic or linear path chosen by count*Log2(count+dstCount) < count+dstCount) always
+   yields the stable merge. *)
+Theorem C02_merge_to_refines_nonfast_partial :
+  forall (maxCap stepRaw blockCount : nat) (linear multi : bool), (1 <= maxCap <= 255)%nat ->
+  forall src dst src' dst' : tree,
+    twf maxCap src -> twf maxCap dst -> sorted multi (contents src) -> sorted multi (contents dst) ->
+    (cnt src <> 0 -> cnt dst <> 0 -> fast_test multi src dst = false)%nat ->
+    merge_to maxCap stepRaw blockCount linear multi src dst = Some (src', dst') ->
+    twf maxCap src' /\ twf maxCap dst' /\ sorted multi (contents dst') /\
+    (contents src', contents dst') = spec_merge multi (contents src) (contents dst).
+Proof. exact merge_to_refines. Qed.
+Print Assumptions C02_merge_to_refines_nonfast_partial.
+
+(* why the fast path may concatenate (list level): when destination ++ source is ordered, the stable merge IS
+   destination ++ source; when the source is STRICTLY before the destination it is source ++ destination (with a
+   non-strict test, equivalent keys would end up before the destination's - the defect fixed in 103bce4). *)
+Theorem C02_stable_merge_of_ordered_blocks_appends :
+  forall (maxCap : nat) (multi : bool), (1 <= maxCap <= 255)%nat -> forall sl dl : list Z,
+    Sorted.StronglySorted (R multi) (dl ++ sl) -> spec_merge multi sl dl = ([], dl ++ sl).
+Proof. exact spec_merge_append. Qed.
+Print Assumptions C02_stable_merge_of_ordered_blocks_appends.
+
+Theorem C02_stable_merge_of_strictly_earlier_source_prepends :
+  forall (maxCap : nat) (multi : bool), (1 <= maxCap <= 255)%nat -> forall sl pre dl : list Z,
+    Sorted.StronglySorted (R multi) (pre ++ sl) -> Forall (fun x => Forall (fun y => x < y) dl) sl ->
+    spec_merge multi sl (pre ++ dl) = ([], pre ++ sl ++ dl).
+Proof. exact spec_merge_prepend. Qed.
+Print Assumptions C02_stable_merge_of_strictly_earlier_source_prepends.
+
+(* pvMergeFast, proved part: the joining step.  The shorter tree (depth ds, wrapped in e-1 .. e new zero-item roots) is
+   hung on the joining edge of the taller tree (depth e+ds) at the deepest ancestor with room, or a new root holding the
+   separator is made when every ancestor is full: the result is WF and its contents are small ++ sep :: big (shorter
+   tree on the left) resp. big ++ sep :: small (on the right).  edge_caps states that the internal nodes on that edge
+   have capacity maxCapacity, as every internal node created by Node::Create has (WF in this development does not
+   record it).  NOT proved: taking the separator out of the shorter tree (edge_remove), the counts, and the link to the
+   stable-merge specification (the two list-level theorems above give that link once contents are concatenated); the
+   whole fast path is modelled (merge_fast) and compared with the real code, node shapes included, on every run. *)
+Theorem C02_merge_fast_join_partial :
+  forall maxCap : nat, (0 < maxCap)%nat ->
+  forall (e : nat) (swp : bool) (sep : Z) (small big : node) (ds : nat),
+    shape maxCap (e + ds) big -> shape maxCap ds small -> edge_caps maxCap e swp big ->
+    exists d', shape maxCap d' (fast_join maxCap e swp sep small big) /\
+      flatten (fast_join maxCap e swp sep small big) =
+        if swp then flatten big ++ sep :: flatten small else flatten small ++ sep :: flatten big.
+Proof. exact fast_join_spec. Qed.
+Print Assumptions C02_merge_fast_join_partial.
+
+(* two containers: all finite histories over {any single-container operation on a or on b, a.Swap(b),
+   a = std::move(b), a = b (copy)}: both stay WF, sorted, mCount exact, and the pair of sequences equals the
+   list-level reference pair. *)
+Theorem C02_history_two_containers_refines :
+  forall (maxCap stepRaw blockCount : nat) (linear multi : bool), (1 <= maxCap <= 255)%nat ->
+  forall ops : list (op2),
+    let st := fold_left (step2 maxCap stepRaw blockCount linear multi) ops (empty_tree, empty_tree) in
+    ok2 maxCap multi st /\
+    (contents (fst st), contents (snd st)) = fold_left (spec_step2 multi) ops ([], []).
+Proof. exact history2_refines. Qed.
+Print Assumptions C02_history_two_containers_refines.
 
 (* lifted over ALL finite histories over the alphabet Insert / hinted Add (right hint: Add at that position, wrong
    hint: Insert) / Remove(iterator at index h) / Remove(key) / ResetKey (when it keeps the order) / Clear, from the
